@@ -12,7 +12,7 @@
 (*  - nothing is pending and nothing fires after stop.                                   *)
 EXTENDS TraceLib
 VARIABLES st, tm, val, now, phase, tid, l
-F == INSTANCE FsmTimed WITH CancelOnExit <- TRUE, FiredTimerCleared <- TRUE
+F == INSTANCE FsmTimed WITH CancelOnExit <- TRUE, FiredTimerCleared <- TRUE, RestoreTimerFirst <- TRUE
 vars == <<st, tm, val, now, phase>>
 Cfg(t) == Traces[t].hdr
 Ev(t) == Traces[t].ev
@@ -38,7 +38,7 @@ Shows(e, r, v) ==
             /\ val' = v /\ e.out = Out(Cfg(tid), r.st, v)
 
 InitLine(e) == /\ e.ev = "init" /\ phase = "new" /\ e.t = 0
-               /\ Shows(e, IF Cfg(tid).rest.on THEN F!Restore(Cfg(tid), Cfg(tid).rest.s, Cfg(tid).rest.due)
+               /\ Shows(e, IF Cfg(tid).rest.on THEN F!RestoreFb(Cfg(tid), Cfg(tid).rest.s, Cfg(tid).rest.due, Cfg(tid).rest.fb, 0)
                            ELSE F!Enter(Cfg(tid), Cfg(tid).init, F!ABSENTV, 0, FALSE, 0, FALSE), Cfg(tid).initv)
                /\ now' = 0
 ExtLine(e) == /\ e.ev = "ext" /\ phase = "run" /\ e.t >= now /\ NotOverdue(e.t)
